@@ -804,6 +804,77 @@ func reannounced(res *core.Result, r *rand.Rand, relays int) {
 	res.Case(fmt.Sprintf("reannounced/relays%d", relays), true)
 }
 
+// afterRejected: one long-lived victim (its frame structs and buffers are recycled from delivery to delivery, as
+// in a running router) first refuses an announcement, then gets (a) an authentic announcement of another origin,
+// which must be accepted with exactly its signed hop records, or (b) a frame of that other origin carrying the
+// hop records signed for the refused one, which must be refused as when it comes alone.
+func afterRejected(res *core.Result, r *rand.Rand, caps []*capture, idV, spare *m.Address, rounds int) {
+	done := 0
+	for try := 0; try < rounds*30 && done < rounds; try++ {
+		a := caps[r.IntN(len(caps))]
+		b := caps[r.IntN(len(caps))]
+		if len(a.layers) == 0 || len(b.layers) == 0 || a.origin == b.origin || a.sender.IP != b.sender.IP || a.meshID != b.meshID {
+			continue
+		}
+		done++
+		vc, err := newVictim(idV, []*m.Address{a.sender, spare}, a.ids)
+		if err != nil {
+			res.Inconcl("victim: %v", err)
+			return
+		}
+		// 1. an announcement of origin A that must be refused: its outermost hop signature is damaged
+		bad := append([]byte(nil), a.data...)
+		bad[len(bad)-1-r.IntN(32)] ^= 0x10
+		before := vc.tableKey()
+		vc.ms.DeliverOn(&vmesh.Packet{From: 1, To: 0, Data: bad}, 0, 1)
+		if vc.tableKey() != before {
+			continue // judged by the bit-flip variants above
+		}
+		wit := map[string]any{"operator": "after-rejected", "first_origin": a.origin.String(), "second_origin": b.origin.String(), "case_id": "after-rejected"}
+		if done%2 == 0 {
+			// (b) B's frame with the hop records signed for A
+			splice := withApx(b, a.apx)
+			vc.ms.DeliverOn(&vmesh.Packet{From: 1, To: 0, Data: splice}, 0, 1)
+			if len(vc.ms.Panics) > 0 {
+				res.Violate("handler-panic:after-rejected", fmt.Sprint(vc.ms.Panics[0]), wit)
+				return
+			}
+			if vc.tableKey() != before {
+				res.Violate("forged-announcement-accepted:splice-other-origin/after-a-rejected-announcement", fmt.Sprintf("right after the router refused a damaged announcement of %s, the frame of origin %s carrying the hop records signed for that announcement changed the routing table:\n%s", a.origin, b.origin, vc.tableKey()), wit)
+				return
+			}
+			res.Count("splices_after_rejected_refused", 1)
+			continue
+		}
+		// (a) the authentic announcement of origin B
+		vc.ms.DeliverOn(&vmesh.Packet{From: 1, To: 0, Data: b.data}, 0, 1)
+		if len(vc.ms.Panics) > 0 {
+			res.Violate("handler-panic:after-rejected", fmt.Sprint(vc.ms.Panics[0]), wit)
+			return
+		}
+		var got *m.RoutingTableEntry
+		es := vc.v.Inst.RouterV.Table().VerifEntries()
+		for i := range es {
+			if es[i].DstIP == b.origin && len(es[i].Path.Hops) == len(b.layers)+2 {
+				got = &es[i]
+			}
+		}
+		if got == nil {
+			res.Violate("authentic-announcement-not-accepted:after-a-rejected-one", fmt.Sprintf("right after the router refused a damaged announcement of %s, an authentic announcement of %s (%d hop records) delivered by the same peer added no route", a.origin, b.origin, len(b.layers)), wit)
+			return
+		}
+		for i, l := range b.layers {
+			h := got.Path.Hops[1+i]
+			if h.Router != l.Router.IP || h.Delay != l.Delay || h.ForwardLabel != l.ForwardLabel || h.ReturnLabel != l.ReturnLabel {
+				res.Violate("authentic-announcement-wrong-route:after-a-rejected-one", fmt.Sprintf("the route learned from an authentic announcement of %s right after a refused one does not list the signed hop records", b.origin), wit)
+				return
+			}
+		}
+		res.Count("authentic_after_rejected_accepted", 1)
+	}
+	res.Case("after-rejected", true)
+}
+
 // concurrentSplice: the router's frame handlers run in parallel (one per CPU). While several of them handle
 // genuine announcements of origin Q delivered by peer P, another one receives the frame of origin C carrying the
 // hop records P signed for Q's announcement. Handled alone that splice is refused (splice-other-origin above);
@@ -953,6 +1024,7 @@ func run(c *core.Ctx) {
 		for k := 0; k < c.Q(2, 10); k++ {
 			reannounced(res, r, 1+(w+k)%4)
 		}
+		afterRejected(res, r, caps, ids[s.t.N], ids[s.t.N+1], c.Q(6, 40))
 		_ = W
 	})
 	res.Sample(map[string]any{"operator": "resigned-outer-over-foreign-inner-chain", "desc": "a relay that holds a real key signs its own hop record (context of announcement A) over the hop chain of announcement B"})
